@@ -1010,7 +1010,16 @@ impl<Front: SocketHandler> ConnectionH1<Front> {
                 // keep alive should probably be used only if the http context is fully reset
                 // in case end_stream occurs due to an error the connection state is probably
                 // unrecoverable and should be terminated
-                if stream_context.keep_alive_backend && stream.back.is_terminated() {
+                // The request must have been written completely as well: the response may
+                // end first (a backend that answers from the request head) and the stream
+                // may be abandoned then (RST_STREAM from an HTTP/2 client). The backend
+                // still expects the rest of the body the head announced and would read
+                // the next request written on this connection as that body.
+                let request_written = stream.front.is_terminated() && stream.front.is_completed();
+                if stream_context.keep_alive_backend
+                    && stream.back.is_terminated()
+                    && request_written
+                {
                     *status = BackendStatus::KeepAlive;
                 } else {
                     self.force_disconnect();
